@@ -234,7 +234,7 @@ def oracle(rng, thorough, deep=False, hints=None):
                 if not (thorough or deep):
                     vias = [vias[int(rng.integers(0, 5))], "loader"]
                 for via in dict.fromkeys(vias):
-                    mdl = ["ZNCC", "NCC", "PCC"][int(rng.integers(0, 3))] if via == "model" else "ZNCC"
+                    mdl = ["ZNCC", "NCC"][int(rng.integers(0, 2))] if via == "model" else "ZNCC"
                     sh = [int(x) for x in rng.integers(-1, 2, size=3)]
                     cases.append(dict(T=T, K=K, j=j, k=k, n=int(rng.choice([10, 11])), shift=sh,
                                       model=mdl, via=via))
